@@ -23,6 +23,11 @@ func c18Spec(shape string) kit.Spec {
 		{ID: 3, Life: "scoped", Outs: []kit.Out{{T: "P3"}}, Deps: []kit.Dep{{T: "P2"}, {T: "P1"}, {T: "P0"}, {T: "scope"}}},
 		{ID: 4, Life: "scoped", Kind: "void", In: in, Deps: []kit.Dep{{T: "scope"}, {T: "ctx"}, {T: "provider"}}},
 		{ID: 5, Life: "transient", Outs: []kit.Out{{T: "P4"}}, Group: "g", Deps: []kit.Dep{{T: "scope"}}},
+		// a dependency whose constructor resolves a parameter-object service through the injected
+		// Provider (root scope) while ITS consumer's parameter object is being filled
+		{ID: 6, Life: "transient", Outs: []kit.Out{{T: "P5"}}, Deps: []kit.Dep{{T: "provider"}}, Nested: []kit.Dep{{T: "D0"}}},
+		{ID: 7, Life: "transient", In: true, Outs: []kit.Out{{T: "D0"}}, Deps: []kit.Dep{{T: "scope"}, {T: "ctx"}}},
+		{ID: 8, Life: "scoped", In: true, Outs: []kit.Out{{T: "D1"}}, Deps: []kit.Dep{{T: "P5"}, {T: "scope"}, {T: "ctx"}, {T: "provider"}}},
 	}}
 }
 
@@ -49,7 +54,7 @@ func c18Run(c c18Case) (*Env, []Finding) {
 		targets = []string{"s3", "s1", "", "s2"}
 	}
 	for _, t := range targets {
-		for _, p := range []Op{{Kind: "get", T: "P3"}, {Kind: "get", T: "P2"}, {Kind: "get", T: "P1"}, {Kind: "group", T: "P4", Group: "g"},
+		for _, p := range []Op{{Kind: "get", T: "P3"}, {Kind: "get", T: "P2"}, {Kind: "get", T: "P1"}, {Kind: "get", T: "D1"}, {Kind: "group", T: "P4", Group: "g"},
 			{Kind: "get", T: "ctx"}, {Kind: "get", T: "scope"}, {Kind: "get", T: "provider"}} {
 			p.Scope = t
 			e.Do(p)
@@ -101,8 +106,8 @@ func c18Run(c c18Case) (*Env, []Finding) {
 		reg := e.reg(cl.Reg)
 		sn := e.ScopeOfCall(cl)
 		want := scopeOf(sn)
-		if reg.Life == "singleton" {
-			want = rootScope
+		if reg.Life == "singleton" || cl.Via == "provider" {
+			want = rootScope // resolved at Build / through the provider itself
 		}
 		for _, a := range cl.Args {
 			switch a.Kind {
@@ -289,7 +294,7 @@ func c18Reserved() []Finding {
 func init() {
 	mc.Register(&mc.Check{
 		Prop:        "C18",
-		Rule:        "scope trees root > s1 > s2 > s3 with every combination of {cancellable context with a value, nil, plain context with a value} per level (27) x {positional, In-struct (value and pointer)} consumers x 2 resolution orders; services of every lifetime (singleton, scoped, transient, scoped initializer, transient group member, nested transient-inside-scoped) take Context / Scope / Provider; every recorded constructor argument and every direct Get of the three built-ins is compared with the scope the resolution was issued on (singletons: the provider's root scope), its Context() and the root provider; context values, FromContext on the scope context and on a derived context, and cancellation propagation are checked per scope; 14 registration routes for the three reserved types must fail and leave the collection unchanged. distinct = canonical observation strings.",
+		Rule:        "scope trees root > s1 > s2 > s3 with every combination of {cancellable context with a value, nil, plain context with a value} per level (27) x {positional, In-struct (value and pointer)} consumers x 2 resolution orders; services of every lifetime (singleton, scoped, transient, scoped initializer, transient group member, nested transient-inside-scoped, and a parameter-object consumer one of whose dependencies re-entrantly resolves another parameter-object service through the injected Provider) take Context / Scope / Provider; every recorded constructor argument and every direct Get of the three built-ins is compared with the scope the resolution was issued on (singletons: the provider's root scope), its Context() and the root provider; context values, FromContext on the scope context and on a derived context, and cancellation propagation are checked per scope; 14 registration routes for the three reserved types must fail and leave the collection unchanged. distinct = canonical observation strings.",
 		Assume:      []string{"cancellation is observed synchronously (context.WithCancel semantics)"},
 		MinOutcomes: 4,
 		Jobs: func(tier string) []mc.Job {
